@@ -194,7 +194,8 @@ def elementMatcher (k v : String) (create : Option Node) (rn : Node) :
     else .err "kind"
 
 /-- `ElementIndexer{Index}`; a negative index is modelled as `none` = "last".
-    On an empty list "last" indexes `elems[-1]`: a Go run-time panic. -/
+    (After the repair of finding 3a "last" of an empty list is `nil`, like an index past the end;
+    before it, Go indexed `elems[-1]` and panicked.) -/
 def elementIndexer (idx : Option Nat) (rn : Node) : Out (Option (Nat × Node)) :=
   match rn with
   | .seq _ is =>
@@ -202,16 +203,13 @@ def elementIndexer (idx : Option Nat) (rn : Node) : Out (Option (Nat × Node)) :
     | none =>
       match is.getLast? with
       | some e => .ok (some (is.length - 1, e))
-      | none => .panic "ElementIndexer: index out of range [-1]"
+      | none => .ok none
     | some i =>
       match is[i]? with
       | some e => .ok (some (i, e))
       | none => .ok none
   | n =>
-    if n.isNull then
-      match idx with
-      | none => .panic "ElementIndexer: index out of range [-1]"
-      | some _ => .ok none
+    if n.isNull then .ok none
     else .err "kind"
 
 /-- one element survives `ElementSetter` unless it is null / an empty map. -/
